@@ -51,7 +51,7 @@ def normalise(toks):
     i = 0
     while i < len(toks):
         t = toks[i]
-        if t == "by" and i + 2 < len(toks) and toks[i + 1] == "1" and toks[i + 2] == ";":
+        if t == "by" and i + 2 < len(toks) and toks[i + 1] == "1" and toks[i + 2] in (";", "while", "until"):
             i += 2
             continue
         # "a , b , c : T" declares the same as "a : T ; b : T ; c : T"
@@ -216,7 +216,9 @@ def model_tree(t, opid):
 def rich_schema(r, k, trees):
     name = "pp_%d" % k
     L = ["SCHEMA %s;" % name, "CONSTANT", "  c_int : INTEGER := 5;", "  c_real : REAL := 1.5E2;", "  c_str : STRING := 'it''s';",
-         "  c_bin : BINARY := %1011;", "  c_log : LOGICAL := UNKNOWN;", "  c_agg : LIST [0:?] OF INTEGER := [0 : 3, 1, 2];",
+         "  c_bin : BINARY := %1011;", "  c_log : LOGICAL := UNKNOWN;", "  c_r20 : REAL := 1.0E20;", "  c_r100 : REAL := 1.0E100;", "  c_rm10 : REAL := 2.5E-10;",
+         "  c_r30 : REAL := 4.0E30;", "  c_rm7 : REAL := 1.0E-7;", "  c_r23 : REAL := 6.02E23;", "  c_r15 : REAL := 1.0E15;", "  c_rm5 : REAL := 9.99E-5;", "  c_rbig : REAL := 123456789012345.0;",
+         "  c_rm101 : REAL := 7.0E-101;", "  c_r0 : REAL := 0.0;", "  c_r308 : REAL := 1.5E308;", "  c_agg : LIST [0:?] OF INTEGER := [0 : 3, 1, 2];",
          "  c_rep : LIST [0:?] OF INTEGER := [7 : 1, 1, 0, 1, 0 : 2];", "END_CONSTANT;", ""]
     L += ["TYPE small = INTEGER;", "WHERE", "  wr1 : {0 <= SELF < 100};", "  SELF <> 13;", "END_TYPE;  -- tail remark small", ""]
     L += ["TYPE colour = ENUMERATION OF (red, green, blue);", "END_TYPE;", ""]
@@ -350,7 +352,16 @@ def main(tier, seed):
                         sig_split = "renamed_import_printed_with_original_name"
                 else:
                     da, db = declarations(text), declarations(printed)
-                    if da != db:
+                    # -t: the remark after END_xxx; names the thing that ends there - an identifier of the source, never a stray '(null)'
+                    if "-t" in opts:
+                        src_ids = set(w.lower() for w in re.findall(r"[A-Za-z_][A-Za-z0-9_]*", text))
+                        for m_ in re.finditer(r"\bEND_\w+\s*;[ \t]*--[ \t]*(\S*)", printed):
+                            if m_.group(1).lower() not in src_ids:
+                                what = "exppp -t writes the tail remark '-- %s' after %s: no such name in the source" % (m_.group(1), m_.group(0).split(";")[0])
+                                break
+                    if what:
+                        pass
+                    elif da != db:
                         only_a = [x for x in da if x not in db]
                         only_b = [x for x in db if x not in da]
                         xa, xb = (only_a or [()])[0], (only_b or [()])[0]
@@ -467,6 +478,14 @@ def main(tier, seed):
     # attributes, INVERSE with and without bounds, UNIQUE over several attributes, GENERIC / AGGREGATE parameters with labels,
     # grouped parameters, VAR, procedure calls, qualified targets, RETURN without value, a rule over two entities, USE /
     # REFERENCE with AS, two schemas in one file
+    # the valid corpus of C04 (chained USE with AS, every REPEAT control combination, recursion through a SELECT, nested
+    # functions, ALIAS / QUERY, redeclared attributes ...)
+    for vp in sorted(glob.glob(os.path.join(VERIF, "corpus", "C04", "valid", "*.exp"))):
+        vt = open(vp).read()
+        if re.search(r"\bAS\s+\w+", vt):
+            continue                      # aliased imports are an open finding (decl.exp shows it)
+        hist["valid_corpus"] = hist.get("valid_corpus", 0) + 1
+        roundtrip("vc_" + os.path.basename(vp)[:-4], vt, lengths[:3], "rich")
     dpath = os.path.join(VERIF, "corpus", "C07", "decl.exp")
     if os.path.exists(dpath):
         hist["declaration_schema"] = 1
